@@ -674,6 +674,7 @@ func C04(cfg Cfg) int {
 	} else {
 		run.Inconclusive(err.Error())
 	}
+	c04Independent(run, cfg, func(w string, wit any) { run.Violate(w, wit) })
 	raceChild(run, cfg, "C04race")
 	return run.Finish()
 }
@@ -686,5 +687,138 @@ func init() {
 		fmt.Printf("RACE-CHILD operations %d\n", stats.ops)
 		fmt.Printf("RACE-CHILD overlaps %d\n", stats.overlaps)
 		return 0
+	}
+}
+
+// c04Independent: clients that share NO key run side by side, each sequential on its own two keys.  With nothing
+// shared, "some order compatible with real time" leaves no freedom: every client must see exactly what it would
+// see alone.  Each client therefore judges its own requests against the sequential specification (advancing =>
+// signed) and feeds its releases to a slashability oracle of its own.  Anything one request leaks into another
+// through process-wide state below the locks (buffers, pools, caches) shows up here.
+func c04Independent(run *evid.Run, cfg Cfg, violate func(string, any)) {
+	env, err := NewEnv(run, cfg, "c04-indep", rig.StackOpts{})
+	if err != nil {
+		run.Inconclusive(err.Error())
+		return
+	}
+	defer env.Stack.Close()
+	const clients = 12
+	env.FreshKeys(2 * clients)
+	keys, names := append([]*rig.Key{}, env.Keys...), append([]string{}, env.Names...)
+	ops := cfg.N(160, 1500)
+	var wg sync.WaitGroup
+	var total, released, refusedAdvancing atomic.Int64
+	for c := 0; c < clients; c++ {
+		wg.Add(1)
+		r := rand.New(rand.NewSource(cfg.Seed*1009 + int64(c)))
+		c := c
+		go func() {
+			defer wg.Done()
+			sl := oracle.NewSlash()
+			wm := make([]oracle.WM, 2)
+			mine := []int{2 * c, 2*c + 1}
+			// Clients start from different epochs so that a record read from the wrong key decides differently.
+			base := uint64(10 + 40*c)
+			var hist []string
+			note := func(s string) {
+				hist = append(hist, s)
+				if len(hist) > 30 {
+					hist = hist[1:]
+				}
+			}
+			genAtt := func(k int) *AttCase {
+				w := &wm[k]
+				src, tgt := base, base+1
+				if w.HasAtt {
+					src, tgt = near(r, w.MaxSrc, -2, 2), near(r, w.MaxTgt, -2, 3)
+				}
+				if src > tgt {
+					src, tgt = tgt, src
+				}
+				a := mkAtt(keys[mine[k]], names[mine[k]], 0, 1, []byte{0xaa, 0xbb}[r.Intn(2)])
+				a.Addr = RandAddr(r)
+				a.Data.Source.Epoch, a.Data.Target.Epoch, a.Data.Slot = src, tgt, tgt*32
+				return a
+			}
+			judgeA := func(k int, a *AttCase, res core.Result, sig []byte) {
+				total.Add(1)
+				w := &wm[k]
+				adv := w.AttAdvancing(a.Data.Source.Epoch, a.Data.Target.Epoch)
+				note(fmt.Sprintf("client %d key %d att %d->%d root %x: %s (store per spec: %+v)", c, k, a.Data.Source.Epoch, a.Data.Target.Epoch, a.Data.BeaconBlockRoot[:1], res, *w))
+				if res == core.ResultSucceeded && len(sig) > 0 {
+					sr := a.SigningRoot()
+					if ok, _ := oracle.VerifySig(a.Key.Pub, sr[:], sig); !ok {
+						violate(fmt.Sprintf("independent clients: client %d got a signature that does not verify for its own request", c), append([]string{}, hist...))
+						return
+					}
+					released.Add(1)
+					if why := sl.AddAtt(a.Key.Pub48(), a.Data.Source.Epoch, a.Data.Target.Epoch, a.DataRoot()); why != "" {
+						violate("independent clients: a client working alone on its keys was given a slashable attestation while other clients signed for OTHER keys: "+why, append([]string{}, hist...))
+					}
+					w.SignedAtt(a.Data.Source.Epoch, a.Data.Target.Epoch)
+				} else if adv && res != core.ResultSucceeded {
+					refusedAdvancing.Add(1)
+					violate(fmt.Sprintf("independent clients: client %d was refused (%s) an attestation %d->%d that advances its own key's history %+v while other clients signed for OTHER keys", c, res, a.Data.Source.Epoch, a.Data.Target.Epoch, *w), append([]string{}, hist...))
+				}
+			}
+			for i := 0; i < ops && run.NumViolations() < 5; i++ {
+				switch r.Intn(4) {
+				case 0, 1:
+					k := r.Intn(2)
+					a := genAtt(k)
+					res, sig := env.SignAtt(ViaService, a)
+					judgeA(k, a, res, sig)
+				case 2:
+					order := r.Perm(2)
+					as := []*AttCase{genAtt(order[0]), genAtt(order[1])}
+					res, sigs := env.SignAtts(ViaService, as)
+					for j := range as {
+						var rr core.Result = core.ResultFailed
+						var sg []byte
+						if j < len(res) {
+							rr = res[j]
+						}
+						if j < len(sigs) {
+							sg = sigs[j]
+						}
+						judgeA(order[j], as[j], rr, sg)
+					}
+				default:
+					k := r.Intn(2)
+					w := &wm[k]
+					slot := base
+					if w.HasProp {
+						slot = near(r, w.MaxSlot, -2, 3)
+					}
+					p := mkProp(keys[mine[k]], names[mine[k]], 0, []byte{0xaa, 0xbb}[r.Intn(2)])
+					p.Addr = RandAddr(r)
+					p.Data.Slot = slot
+					res, sig := env.SignProp(ViaService, p)
+					total.Add(1)
+					adv := w.PropAdvancing(slot)
+					note(fmt.Sprintf("client %d key %d proposal slot %d root %x: %s (store per spec: %+v)", c, k, slot, p.Data.BodyRoot[:1], res, *w))
+					if res == core.ResultSucceeded && len(sig) > 0 {
+						released.Add(1)
+						if why := sl.AddProp(p.Key.Pub48(), slot, p.DataRoot()); why != "" {
+							violate("independent clients: a client working alone on its keys was given a slashable proposal while other clients signed for OTHER keys: "+why, append([]string{}, hist...))
+						}
+						if w.HasProp && slot <= w.MaxSlot {
+							violate(fmt.Sprintf("independent clients: client %d was given a proposal at slot %d after slot %d while other clients signed for OTHER keys", c, slot, w.MaxSlot), append([]string{}, hist...))
+						}
+						w.SignedProp(slot)
+					} else if adv && res != core.ResultSucceeded {
+						violate(fmt.Sprintf("independent clients: client %d was refused (%s) a proposal at slot %d that advances its own key's history %+v while other clients signed for OTHER keys", c, res, slot, *w), append([]string{}, hist...))
+					}
+				}
+			}
+		}()
+	}
+	wg.Wait()
+	run.Eval(int(total.Load()))
+	run.Count("independent_client_requests", int(total.Load()))
+	run.Count("independent_client_released", int(released.Load()))
+	run.Distinct(fmt.Sprintf("independent clients: %d clients x 2 private keys, released>0=%v", clients, released.Load() > 0))
+	if released.Load() == 0 {
+		run.Inconclusive("independent clients released nothing")
 	}
 }
